@@ -251,6 +251,70 @@ fn long_seq_space(name: &'static str, cfg: SvcCfg, n: u64, wrap: fn(HCase) -> Ca
     }
 }
 
+/// request sizes exactly at, one below and one above the powers of two a buffer, a limit or a fast
+/// path might be built around (64 bytes .. 1 MiB), among ordinary requests
+fn size_ladder_space(name: &'static str, cfg: SvcCfg, n: u64, wrap: fn(HCase) -> Case) -> Space {
+    let alpha = alphabet::reduced();
+    Space {
+        name,
+        size: n,
+        exhaustive: false,
+        gen: Box::new(move |idx, seed| {
+            let mut rng = Rng::new(seed);
+            let a = cfg.scripted[0].clone();
+            // the rung is walked systematically, the rest is seeded
+            let pow = 6 + (idx % 15) as u32; // 2^6 .. 2^20
+            let target = ((1usize << pow) as i64 + (idx / 15 % 3) as i64 - 1) as usize;
+            let len = rng.range(2, 8) as usize;
+            let big_at = rng.usize(len);
+            let mut stream = Vec::new();
+            for i in 0..len {
+                if i == big_at || rng.chance(1, 6) {
+                    let flags = match rng.below(4) {
+                        0 => Flags::MORE,
+                        1 => Flags::ONEWAY,
+                        _ => Flags::NONE,
+                    };
+                    let (method, extra) = if rng.chance(1, 3) {
+                        (format!("{}.Script", a), Some(json!(["c1", "r", "c0", "r"])))
+                    } else if rng.chance(1, 4) {
+                        ("org.varlink.service.GetInfo".to_string(), None)
+                    } else {
+                        (format!("{}.Echo", a), None)
+                    };
+                    let mk = |pad: usize| {
+                        let mut p = json!({"token": format!("h-{}", i), "pad": "p".repeat(pad)});
+                        if let Some(sc) = &extra {
+                            p["script"] = sc.clone();
+                        }
+                        frame(&request(&method, Some(p), flags))
+                    };
+                    let base = mk(0).len();
+                    let want = if i == big_at { target } else { (1usize << rng.range(6, 14)) + rng.usize(3) - 1 };
+                    stream.extend(mk(want.saturating_sub(base)));
+                } else {
+                    let k = alphabet::random_kind(&mut rng, &alpha);
+                    stream.extend(frame(&build(&cfg, k, &format!("h-{}", i))));
+                }
+            }
+            let mut c = HCase::plain(&cfg, &stream);
+            match rng.below(4) {
+                0 => {}
+                1 => c.cuts = random_cuts_r(&mut rng, stream.len(), 1, 6),
+                2 => {
+                    let sz = *rng.pick(&[512usize, 4096, 8192, 8191, 65536]);
+                    c.cuts = (1..stream.len() / sz + 1).map(|k| k * sz).filter(|x| *x < stream.len()).collect();
+                }
+                _ => c.read_plan = random_plan_r(&mut rng, 4, 60, 20000),
+            }
+            if rng.chance(1, 3) {
+                c.write_plan = random_plan_r(&mut rng, 4, 60, 20000);
+            }
+            wrap(c)
+        }),
+    }
+}
+
 pub fn c01_h_spaces(tier: Tier) -> Vec<Space> {
     let cfg = SvcCfg::basic();
     let maxlen = if tier == Tier::Quick { 3 } else { 4 };
@@ -265,6 +329,7 @@ pub fn c01_h_spaces(tier: Tier) -> Vec<Space> {
             Case::H,
         ),
         long_seq_space("H.seq.long", cfg.clone(), if tier == Tier::Quick { 400 } else { 12_000 }, Case::H),
+        size_ladder_space("H.seq.size-ladder", cfg.clone(), if tier == Tier::Quick { 900 } else { 27_000 }, Case::H),
         random_seq_space(
             "H.seq.random.write-error",
             cfg,
@@ -551,6 +616,7 @@ pub fn c02_h_spaces(tier: Tier) -> Vec<Space> {
         });
     }
     spaces.push(long_seq_space("H.cut.long", SvcCfg::basic(), if tier == Tier::Quick { 300 } else { 8_000 }, Case::HDiff));
+    spaces.push(size_ladder_space("H.cut.size-ladder", SvcCfg::basic(), if tier == Tier::Quick { 450 } else { 13_500 }, Case::HDiff));
     // seeded random k-cuts with short reads / EINTR / short writes
     {
         let mut st = streams.clone();
@@ -741,6 +807,74 @@ pub fn c03_h_spaces(tier: Tier) -> Vec<Space> {
                 ));
                 s.extend(frame(&request("org.varlink.service.GetInfo", None, Flags::NONE)));
                 Case::H(HCase::plain(&cfg, &s))
+            }),
+        });
+    }
+    // several service-interface calls on one service object: the same description asked for again,
+    // different ones in a row, GetInfo in between (anything remembered from one call must not leak
+    // into the next)
+    {
+        let configs = configs.clone();
+        let n = if tier == Tier::Quick { 6_000 } else { 200_000 };
+        spaces.push(Space {
+            name: "H.service.describe-sequences",
+            size: n,
+            exhaustive: false,
+            gen: Box::new(move |_idx, seed| {
+                let mut rng = Rng::new(seed);
+                let mut cfg = SvcCfg::basic();
+                cfg.scripted = rng.pick(&configs).clone();
+                cfg.ping = rng.chance(1, 2);
+                cfg.more = rng.chance(1, 2);
+                let mut targets: Vec<String> = cfg.scripted.clone();
+                targets.push(SVC.to_string());
+                targets.push(PING.to_string());
+                targets.push(MORE.to_string());
+                for _ in 0..2 {
+                    targets.push(rng.pick(NAME_POOL).to_string());
+                }
+                let mut s = Vec::new();
+                let mut last: Option<String> = None;
+                for i in 0..rng.range(2, 6) {
+                    match rng.below(6) {
+                        0 => {
+                            let f = if rng.chance(1, 4) { Flags::ONEWAY } else { Flags::NONE };
+                            s.extend(frame(&request("org.varlink.service.GetInfo", None, f)))
+                        }
+                        1 => {
+                            let t = rng.pick(&targets).clone();
+                            s.extend(frame(&request(&format!("{}.Echo", t), Some(json!({"token": format!("d-{}", i)})), Flags::NONE)));
+                        }
+                        _ => {
+                            // now and then the same one again
+                            let t = match (&last, rng.chance(1, 3)) {
+                                (Some(l), true) => l.clone(),
+                                _ => rng.pick(&targets).clone(),
+                            };
+                            last = Some(t.clone());
+                            let f = match rng.below(8) {
+                                0 => Flags::MORE,
+                                1 | 2 => Flags::ONEWAY,
+                                _ => Flags::NONE,
+                            };
+                            s.extend(frame(&request(
+                                "org.varlink.service.GetInterfaceDescription",
+                                Some(json!({ "interface": t })),
+                                f,
+                            )));
+                        }
+                    }
+                }
+                // now and then the batch ends in a message the service refuses: what came before it
+                // is answered all the same
+                if rng.chance(1, 5) {
+                    s.extend_from_slice(*rng.pick(&[&b"{\"method\":42}\0"[..], &b"nonsense\0"[..], &b"{\"method\":\"a.b.C\",\"more\":1}\0"[..]]));
+                }
+                let mut c = HCase::plain(&cfg, &s);
+                if rng.chance(1, 3) {
+                    c.cuts = random_cuts(&mut rng, s.len(), 3);
+                }
+                Case::H(c)
             }),
         });
     }
@@ -1436,6 +1570,7 @@ pub fn plan_for(prop: &str, tier: Tier) -> Option<Plan> {
         "C05" => {
             let mut sp = c05_h_spaces(tier);
             sp.extend(crate::ksim::c05_spaces(tier));
+            sp.extend(crate::lsim::c05_l_spaces(tier));
             let mut p = h_plan(
                 sp,
                 "H: every script over {set_continues(true), set_continues(false), reply, reply_error, reply-ignoring-the-result, reply_error-ignoring-the-result, to_upgraded()} up to length 4 (quick) / 5 (thorough) x request flags {none, more, oneway, more+oneway, more:false, more:false+oneway, more with the other flags spelled out as false, all three false}, followed by a normal request (complete), plus seeded random longer scripts with followers, cuts and short writes. Oracle: wire equals the model (continues only when more was asked; a gated reply writes nothing) and every reply call returned CallContinuesMismatch exactly when gated. K: scripted server reply streams (k continues, then result or error) against the real client iterator, followed by further calls.",
@@ -1443,6 +1578,8 @@ pub fn plan_for(prop: &str, tier: Tier) -> Option<Plan> {
             );
             p.real.extend(crate::ksim::REAL_K);
             p.stub.extend(crate::ksim::STUB_K);
+            p.real.extend(crate::lsim::REAL_L);
+            p.stub.extend(crate::lsim::STUB_L);
             p
         }
         "C06" => {
